@@ -4,6 +4,7 @@ from __future__ import annotations
 import ast
 import itertools
 import json
+import builtins
 import keyword
 
 from harness import lib, e2e
@@ -128,6 +129,34 @@ def correspond(ctx):
                                    json.dumps({"classes": classes, "edge": [src, dst, is_base], "opts": opts, "model": f"from {left} import {right}", "file": fname,
                                                "imports": [l for l in text.splitlines() if l.startswith("from .")]}), hint=(classes, edges, opts))
     ctx.count("disagreements", nbad)
+    # layout correspondence: which key is written as a package - real generator vs Layout.layout, on every set of
+    # up to 3 (thorough: 4) module keys of depth <= 3 over two segment names, plus random sets over three
+    paths2 = all_paths(3, "ab")
+    sets = [list(c) for k in (1, 2, 3) for c in itertools.combinations(paths2, k) if c != ((),)]  # the root alone is single-file output
+    if ctx.thorough:
+        sets += [list(c) for c in itertools.combinations(paths2, 4)]
+    paths3 = all_paths(4, "abc")
+    for _ in range(ctx.n(60, 1200)):
+        sets.append(rng.sample(paths3, rng.choice([3, 4, 5, 6])))
+    lays = model_layouts(drv, sets)
+    lbad = 0
+    for M, lay in zip(sets, lays):
+        ctx.count("eval_layout")
+        if len(M) > 1:
+            ctx.nontrivial(("layout", tuple(M)))
+        ctx.bucket("layout_shadow", shadow_in(M, lay))
+        real = real_layout(M)
+        if real is None:
+            continue
+        diff = [m for m in M if real[m] != lay.get(m)]
+        if diff:
+            lbad += 1
+            if lbad <= 4:
+                ctx.tie_broken("correspondence", "package layout: the generator writes a module key differently from Layout.layout",
+                               json.dumps({"modules": [".".join(m) or "<root>" for m in M], "key": ".".join(diff[0]), "code_is_package": real[diff[0]],
+                                           "model_is_package": lay.get(diff[0])}),
+                               hint=([(m, cls_name(m)) for m in M], [], {}))
+    ctx.count("layout_disagreements", lbad)
 
 
 # ---------------------------------------------------------------------------------------------
@@ -161,16 +190,39 @@ def in_known_class(M, src, dst, is_base, exact):
     return False
 
 
-def has_shadow_class(M):
-    """known finding C12-shadow: module m is written as m.py although a deeper module lives in m/ because no
-    module of depth len(m)+1 under m exists to create m/__init__.py first"""
+def model_layouts(drv, Ms):
+    """the Coq model's layout for each module-key set: [{module key: written as a package?}]"""
+    inv = {v: k for k, v in SEG.items()}
+    outs = drv.batch(["layout\t" + ";".join(enc_path(m) for m in M) for M in Ms])
+    res = []
+    for out in outs:
+        d = {}
+        for item in out.split(";"):
+            k, b = item.split(":")
+            d[tuple(inv[int(x)] for x in k.split(",")) if k != "-" else ()] = b == "1"
+        res.append(d)
+    return res
+
+
+def shadow_in(M, lay):
+    """known finding C12-shadow, decided by the layout model: a key with a descendant is written as a plain module file
+    (nothing one level below it was visited before it)"""
+    return any(m != () and not lay.get(m, False) and any(len(x) > len(m) and x[: len(m)] == m for x in M) for m in M)
+
+
+def real_layout(M):
+    """module key -> is the class generated for it found in <m>/__init__.py (True) or <m>.py (False)"""
+    classes = [(m, cls_name(m)) for m in M]
+    files = run_case(classes, [], {})
+    if files is None:
+        return None
+    out = {}
     for m in M:
-        if m == ():
-            continue
-        below = [x for x in M if len(x) > len(m) and x[: len(m)] == m]
-        if below and not any(len(x) == len(m) + 1 for x in below):
-            return True
-    return False
+        a, b = "/".join(m) + ".py", "/".join((*m, "__init__.py"))
+        ina = a in files and f"class {cls_name(m)}(" in files[a]
+        inb = b in files and f"class {cls_name(m)}(" in files[b]
+        out[m] = True if inb and not ina else False if ina and not inb else None
+    return out
 
 
 POOL = ["Item", "Pet", "Tag"]
@@ -186,8 +238,6 @@ def gen_case(rng, guarded=True):
         m = tuple(rng.choice(segs) for _ in range(d))
         if m not in mods:
             mods.append(m)
-    if guarded and has_shadow_class(mods):
-        return gen_case(rng, guarded)
     classes = []
     clash = rng.random() < 0.5
     for m in mods:
@@ -348,7 +398,27 @@ def check_output(files):
                 tf = bound_modules[node.value.id]
                 if node.attr not in defined_names(files[tf]):
                     return f"{p}: use {node.value.id}.{node.attr} reaches {tf}, which does not define {node.attr}"
-        # string annotations / from __future__ annotations: names inside annotations are ast nodes already
+        # every name a class uses (bases, annotations) is bound somewhere in the file: a qualified use 'mod.Cls' whose
+        # 'from . import mod' line is missing reaches no import at all
+        bound = set(dir(builtins)) | top_level_names(text)
+        for node in tree.body:
+            if isinstance(node, (ast.Import, ast.ImportFrom)):
+                bound.update((a.asname or a.name).split(".")[0] for a in node.names)
+        for node in tree.body:
+            if not isinstance(node, ast.ClassDef):
+                continue
+            local = {st.target.id for st in node.body if isinstance(st, ast.AnnAssign) and isinstance(st.target, ast.Name)}
+            local |= {st.name for st in node.body if isinstance(st, (ast.ClassDef, ast.FunctionDef))}
+            exprs = list(node.bases) + [st.annotation for st in node.body if isinstance(st, ast.AnnAssign)]
+            for e in exprs:
+                if isinstance(e, ast.Constant) and isinstance(e.value, str):
+                    try:
+                        e = ast.parse(e.value, mode="eval").body
+                    except SyntaxError:
+                        continue
+                for x in ast.walk(e):
+                    if isinstance(x, ast.Name) and x.id not in bound and x.id not in local:
+                        return f"{p}: class {node.name} uses the name {x.id!r}, which no import or definition of the file binds"
     return None
 
 
@@ -475,7 +545,7 @@ def check_case(classes, edges, opts):
     return check_output(g.files) or check_refs(g.files, classes, edges)
 
 
-def case_in_known(classes, edges, opts):
+def case_in_known(classes, edges, opts, lay):
     mods = [c[0] for c in classes]
     if opts.get("use_exact_imports"):
         # known finding C12-exact-base-and-member: one foreign class used as base and as member type in one module
@@ -483,7 +553,7 @@ def case_in_known(classes, edges, opts):
             for s2, d2, b2 in edges:
                 if b1 and not b2 and d1 == d2 and classes[s1][0] == classes[s2][0] and classes[d1][0] != classes[s1][0]:
                     return True
-    return has_shadow_class(mods) or any(
+    return shadow_in(mods, lay) or any(
         classes[s][0] != classes[d][0] and in_known_class(mods, classes[s][0], classes[d][0], b, opts.get("use_exact_imports")) for s, d, b in edges)
 
 
@@ -502,8 +572,64 @@ def clash_family():
                     yield classes, edges, dict(opts)
 
 
+def wrapper_family():
+    """root-model (wrapper) definitions of one module used once, twice or three times from another module - by several
+    members of one model or by several models - next to direct references into the same module; every import style"""
+    for cat, shop in ((("catalog",), ("shop",)), (("a", "catalog"), ("a", "shop")), (("catalog",), ("web", "shop")), ((), ("shop",))):
+        c = lambda n: ".".join((*cat, n))
+        sh = lambda n: ".".join((*shop, n))
+        ref = lambda n: {"$ref": "#/definitions/" + c(n)}
+        wrappers = {
+            "PriceMap": {"type": "object", "additionalProperties": ref("Price")},
+            "Prices": {"type": "array", "items": ref("Price")},
+            "Currency": {"type": "string"},
+            "Either": {"anyOf": [ref("Price"), ref("Tag")]},
+        }
+        for wname, wdef in wrappers.items():
+            for uses in (1, 2, 3):
+                for spread in (False, True):
+                    for direct in (False, True):
+                        defs = {c("Price"): {"type": "object", "properties": {"amount": {"type": "integer"}}},
+                                c("Tag"): {"type": "object", "properties": {"label": {"type": "string"}}}, c(wname): wdef}
+                        props = {f"u{i}": ref(wname) for i in range(uses)}
+                        if direct:
+                            props["d"] = ref("Price")
+                        if spread and uses > 1:
+                            items = list(props.items())
+                            defs[sh("Store")] = {"type": "object", "properties": dict(items[:1])}
+                            defs[sh("Depot")] = {"type": "object", "properties": dict(items[1:])}
+                        else:
+                            defs[sh("Store")] = {"type": "object", "properties": props}
+                        for opts in ({"collapse_root_models": True}, {}, {"collapse_root_models": True, "use_exact_imports": True}, {"use_exact_imports": True}):
+                            if opts.get("use_exact_imports") and cat == ():
+                                continue  # known finding C12-exact-ancestor: the exact form pointing into an ancestor package __init__
+                            yield {"definitions": defs}, dict(opts)
+
+
+def check_doc(doc, opts):
+    g = e2e.generate(json.dumps(doc), modular=True, **opts)
+    if g.timeout:
+        return "generate() does not terminate"
+    if not g.ok:
+        return None
+    return check_output(g.files)
+
+
 def falsify(ctx):
     rng = ctx.rng("fals")
+    nw = 0
+    for k, (doc, opts) in enumerate(wrapper_family()):
+        if not ctx.thorough and not opts.get("collapse_root_models") and k % 5:
+            continue
+        ctx.count("eval_e2e")
+        ctx.count("wrapper_cases")
+        ctx.nontrivial(json.dumps([doc, sorted(opts)], sort_keys=True))
+        why = check_doc(doc, opts)
+        if why:
+            nw += 1
+            if nw <= 3:
+                ctx.violation(f"wrapper:{json.dumps([sorted(doc['definitions']), sorted(opts)])}", f"definitions {sorted(doc['definitions'])} {opts}: {why}",
+                              {"doc": doc, "opts": opts, "why": why})
     cases = list(clash_family())
     for h in ctx.hints[:10]:
         if isinstance(h, tuple) and len(h) == 3:
@@ -515,9 +641,17 @@ def falsify(ctx):
     for _ in range(ctx.n(250, 4000)):
         cases.append(gen_case(rng, guarded=True))
     seen = 0
-    for classes, edges, opts in cases:
-        classes, edges = norm_case(classes, edges)
-        if case_in_known(classes, edges, opts) or opts.get("treat_dot_as_module"):
+    cases = [(*norm_case(c, e), o) for c, e, o in cases]
+    # three shallow/deep layouts around an ancestor package that holds models of its own
+    for deep, anc, other in ((("a", "b", "c"), ("a",), ("c",)), (("a", "b", "c"), ("a",), ("c", "a")), (("b", "a", "c", "a"), ("b",), ("c",)),
+                             (("b", "a", "c", "a"), ("b", "a"), ("c",)), (("a", "b", "c"), (), ("b",))):
+        cl = [(deep, cls_name(deep)), (anc, cls_name(anc)), (other, cls_name(other))]
+        for edges in ([], [(2, 0, False)], [(2, 0, False), (2, 1, False)], [(0, 2, False)]):
+            cases.insert(0, (cl, edges, {}))
+    lays = model_layouts(lib.Driver(), [sorted({c[0] for c in cl}) for cl, _, _ in cases])
+    for (classes, edges, opts), lay in zip(cases, lays):
+        if case_in_known(classes, edges, opts, lay) or opts.get("treat_dot_as_module"):
+            ctx.count("skipped_known_class")
             continue
         ctx.count("eval_e2e")
         ctx.bucket("modules", len({c[0] for c in classes}))
@@ -536,11 +670,17 @@ def falsify(ctx):
 
 def replay_finding(ctx, f):
     r = f["replay"]
+    if "doc" in r:
+        return check_doc(r["doc"], r["opts"]) is not None
     return check_case(r["classes"], r["edges"], r["opts"]) is not None
 
 
 def replay(ctx, payload):
     r = payload.get("replay", payload)
+    if "doc" in r:
+        why = check_doc(r["doc"], r["opts"])
+        print("replay:", why or "no violation")
+        return 1 if why else 0
     if "classes" not in r:
         print(json.dumps(payload, indent=1)[:3000])
         return 0
